@@ -1,6 +1,9 @@
 package doerner
 
 import (
+	"errors"
+
+	"github.com/taurusgroup/multi-party-sig/internal/round"
 	"github.com/taurusgroup/multi-party-sig/pkg/math/curve"
 	"github.com/taurusgroup/multi-party-sig/pkg/party"
 	"github.com/taurusgroup/multi-party-sig/pkg/pool"
@@ -52,6 +55,11 @@ func Keygen(group curve.Curve, receiver bool, selfID, otherID party.ID, pl *pool
 // This won't change the value of the public key, but it will change the value of the chaining key.
 // If this isn't desirable, then the new chain key can simply be overwritten with the previous value.
 func RefreshReceiver(config *ConfigReceiver, selfID, otherID party.ID, pl *pool.Pool) protocol.StartFunc {
+	if config == nil || config.Public == nil || config.SecretShare == nil {
+		return func([]byte) (round.Session, error) {
+			return nil, errors.New("doerner: missing or incomplete key material")
+		}
+	}
 	return keygen.StartKeygen(config.Group(), true, selfID, otherID, config.SecretShare, config.Public, pl)
 }
 
@@ -59,6 +67,11 @@ func RefreshReceiver(config *ConfigReceiver, selfID, otherID party.ID, pl *pool.
 //
 // See RefreshReceiver.
 func RefreshSender(config *ConfigSender, selfID, otherID party.ID, pl *pool.Pool) protocol.StartFunc {
+	if config == nil || config.Public == nil || config.SecretShare == nil {
+		return func([]byte) (round.Session, error) {
+			return nil, errors.New("doerner: missing or incomplete key material")
+		}
+	}
 	return keygen.StartKeygen(config.Group(), false, selfID, otherID, config.SecretShare, config.Public, pl)
 }
 
@@ -71,6 +84,11 @@ func RefreshSender(config *ConfigSender, selfID, otherID party.ID, pl *pool.Pool
 //
 // A pool can be passed to this function, to parallelize certain operations and improve performance.
 func SignReceiver(config *ConfigReceiver, selfID, otherID party.ID, hash []byte, pl *pool.Pool) protocol.StartFunc {
+	if config == nil || config.Public == nil || config.SecretShare == nil {
+		return func([]byte) (round.Session, error) {
+			return nil, errors.New("doerner: missing or incomplete key material")
+		}
+	}
 	return sign.StartSignReceiver(config, selfID, otherID, hash, pl)
 }
 
@@ -78,5 +96,10 @@ func SignReceiver(config *ConfigReceiver, selfID, otherID party.ID, hash []byte,
 //
 // See SignReceiver for more information.
 func SignSender(config *ConfigSender, selfID, otherID party.ID, hash []byte, pl *pool.Pool) protocol.StartFunc {
+	if config == nil || config.Public == nil || config.SecretShare == nil {
+		return func([]byte) (round.Session, error) {
+			return nil, errors.New("doerner: missing or incomplete key material")
+		}
+	}
 	return sign.StartSignSender(config, selfID, otherID, hash, pl)
 }
